@@ -173,7 +173,15 @@ func (s *Session) wait() *Stop {
 			}
 		case <-timer.C:
 			dump := c.goroutineDump()
-			return &Stop{Kind: "hang", Cmds: s.pendingCmds, Detail: ClassifyHang(dump) + "\n" + dump}
+			detail := ClassifyHang(dump) + "\n" + dump
+
+			// A buffer of thousands of runes (a large numeric argument multiplied an
+			// insertion) makes every redisplay honestly slow: not a liveness verdict.
+			if s.Last != nil && s.Last.Kind == "park" && s.Last.Ev.RawLen > 2500 {
+				detail = "slow: buffer of " + fmt.Sprint(s.Last.Ev.RawLen) + " runes\n" + detail
+			}
+
+			return &Stop{Kind: "hang", Cmds: s.pendingCmds, Detail: detail}
 		}
 	}
 }
@@ -394,3 +402,6 @@ func LibraryStack(dump string) string {
 
 	return ""
 }
+
+// CancelGlue forgets bytes that were to ride with the next cursor report.
+func (c *Child) CancelGlue() { c.glue = nil }
